@@ -54,6 +54,7 @@ def rnE (ν : Ren) (bs : List Name) : Expr → Expr
   | .for i c s b => .for (rnE ν bs i) (rnE ν bs c) (rnE ν bs s) (rnE ν bs b)
   | .forIn x coll b => .forIn (ν x bs.length) (rnE ν bs coll) (rnE ν (x :: bs) b)
   | .call f args => .call (rnE ν bs f) (rnEs ν bs args)
+  | .pipe l f args => .pipe (rnE ν bs l) (rnE ν bs f) (rnEs ν bs args)
   | .builtin b args => .builtin b (rnEs ν bs args)
   | .lam (.mk id n ps r body cs) =>
     if n = "" then .lam (rnF ν bs "" (.mk id n ps r body cs))
@@ -69,6 +70,8 @@ def rnE (ν : Ren) (bs : List Name) : Expr → Expr
   | .matchE e gs => .matchE (rnE ν bs e) (rnGuards ν bs gs)
   | .ifLet g e els => .ifLet (rnGuard ν bs g) (rnE ν bs e) (rnE ν bs els)
   | .listcomp body quals ty => .listcomp (rnE ν (qualBinders quals ++ bs) body) (rnQuals ν bs quals) ty
+  | .range bounds => .range (rnEs ν bs bounds)
+  | .slice a bounds => .slice (rnE ν bs a) (rnEs ν bs bounds)
 def rnEs (ν : Ren) (bs : List Name) : List Expr → List Expr
   | [] => []
   | e :: es => rnE ν bs e :: rnEs ν bs es
@@ -139,10 +142,11 @@ def usesE (bs : List Name) : Expr → List (Name × List Name)
   | .for i c s b => usesE bs i ++ usesE bs c ++ usesE bs s ++ usesE bs b
   | .forIn x coll b => usesE bs coll ++ usesE (x :: bs) b
   | .call f args => usesEs bs args ++ usesE bs f
+  | .pipe l f args => usesEs bs args ++ usesE bs l ++ usesE bs f
   | .builtin _ args | .arrLit _ args _ | .arrNew args _ | .record _ args | .tuple args
-  | .enumRec _ _ args => usesEs bs args
+  | .enumRec _ _ args | .range args => usesEs bs args
   | .lam (.mk id n ps r body cs) => usesF (if n = "" then bs else n :: bs) (.mk id n ps r body cs)
-  | .index a idx => usesE bs a ++ usesEs bs idx
+  | .index a idx | .slice a idx => usesE bs a ++ usesEs bs idx
   | .field e _ => usesE bs e
   | .matchE e gs => usesE bs e ++ usesGuards bs gs
   | .ifLet g e els => usesE bs e ++ usesGuard bs g ++ usesE bs els
